@@ -226,6 +226,9 @@ func check(prop string) int {
 	start := time.Now()
 	var last *kernel.BFS
 	for _, r := range runs {
+		if f := os.Getenv("VERIF_ONLY_RUN"); f != "" && !strings.Contains(r.name, f) { // debugging aid, never set by a registered command
+			continue
+		}
 		b := &kernel.BFS{Property: prop, Engine: "E-A/" + r.name, Cfg: r.cfg, MaxDepth: r.depth, Budget: r.budget, Workers: 16, WorkerArgs: []string{"worker"}}
 		res := b.Run()
 		last = b
